@@ -574,6 +574,9 @@ func (r *resolver) resolveRef(rs *Resolved, s *Schema, ref string) (_ *Schema, d
 			if err != nil {
 				return nil, "", fmt.Errorf("loading %s: %w", fraglessRefURI, err)
 			}
+			if ls == nil {
+				return nil, "", fmt.Errorf("loading %s: the loader returned neither a schema nor an error", fraglessRefURI)
+			}
 			// Check if referenced schema has $schema defined. If not it should inherit the
 			// draft of the referring document (its root's $schema, not that of the subschema
 			// holding the $ref, which is normally empty).
